@@ -4,6 +4,7 @@ import OlVerif.Unparse.StrLit
 import OlVerif.Unparse.WFB
 import OlVerif.Lower.Stmt
 import OlVerif.Lower.Reject
+import OlVerif.Order.Trace
 import OlVerif.Api.Model
 import OlVerif.Ctrl.Run
 
@@ -92,7 +93,10 @@ def opLower (j : Json) : Json :=
     let body ← (← jArr (← j.getObjVal? "body")).toList.mapM stmtOfJson
     -- `bad`: the hypothesis of C08.reject_at_any_depth, evaluated on this program
     match lowerFull cfg sym body with
-    | .ok e => pure (Json.mkObj [("ok", exprToJson e), ("bad", .bool (badModule body)), ("wf", .bool (wfEB e))])
+    -- `tr_t` / `tr_f`: the probes the output evaluates, in order, under the all-true / all-false oracle (M-ORDER)
+    | .ok e => pure (Json.mkObj [("ok", exprToJson e), ("bad", .bool (badModule body)), ("wf", .bool (wfEB e)),
+        ("tr_t", .arr ((tr (fun _ => true) e).map fun (k : Nat) => Json.num (JsonNumber.fromNat k)).toArray),
+        ("tr_f", .arr ((tr (fun _ => false) e).map fun (k : Nat) => Json.num (JsonNumber.fromNat k)).toArray)])
     | .error err => pure (Json.mkObj [("err", .str err.cls), ("bad", .bool (badModule body))])
   match r with
   | .ok j => j
